@@ -678,9 +678,6 @@ class InputParameterInt(InputParameter):
         ValueError
             when default value not between min_value and max_value (inclusive)
         """
-        super().__init__(key, name, default_value, display_priority,
-                         parent=parent, description=description,
-                         read_only=read_only)
         if not isinstance(default_value, int):
             raise TypeError(f"default value {default_value} is not an int")
         if not isinstance(min_value, (int, float)):
@@ -697,6 +694,10 @@ class InputParameterInt(InputParameter):
         self._min: int = min_value
         self._max: int = max_value
         self._format: str = format_str
+        # register with the parent only after the checks above have passed
+        super().__init__(key, name, default_value, display_priority,
+                         parent=parent, description=description,
+                         read_only=read_only)
         
     @property    
     def value(self) -> int:
@@ -877,9 +878,6 @@ class InputParameterFloat(InputParameter):
         ValueError
             when default value not between min_value and max_value (inclusive)
         """
-        super().__init__(key, name, default_value, display_priority,
-                         parent=parent, description=description,
-                         read_only=read_only)
         if not (isinstance(default_value, float) or 
                 isinstance(default_value, int)):
             raise TypeError(f"default value {default_value} is not float/int")
@@ -897,6 +895,10 @@ class InputParameterFloat(InputParameter):
         self._min: float = min_value
         self._max: float = max_value
         self._format: str = format_str
+        # register with the parent only after the checks above have passed
+        super().__init__(key, name, default_value, display_priority,
+                         parent=parent, description=description,
+                         read_only=read_only)
         
     @property    
     def value(self) -> float:
@@ -1044,11 +1046,12 @@ class InputParameterStr(InputParameter):
         TypeError
             when default_value is not a string
         """
+        if not isinstance(default_value, str):
+            raise TypeError(f"default value {default_value} is not a str")
+        # register with the parent only after the checks above have passed
         super().__init__(key, name, default_value, display_priority,
                          parent=parent, description=description,
                          read_only=read_only)
-        if not isinstance(default_value, str):
-            raise TypeError(f"default value {default_value} is not a str")
 
     @property    
     def value(self) -> str:
@@ -1151,11 +1154,12 @@ class InputParameterBool(InputParameter):
         TypeError
             when default_value is not a bool
         """
+        if not isinstance(default_value, bool):
+            raise TypeError(f"default value {default_value} is not a bool")
+        # register with the parent only after the checks above have passed
         super().__init__(key, name, default_value, display_priority,
                          parent=parent, description=description,
                          read_only=read_only)
-        if not isinstance(default_value, bool):
-            raise TypeError(f"default value {default_value} is not a bool")
 
     @property    
     def value(self) -> bool:
@@ -1304,9 +1308,6 @@ class InputParameterQuantity(InputParameter):
             when the default value, converted to SI units or base units, is 
             not between min_si and max_si (inclusive)
         """
-        super().__init__(key, name, default_value, display_priority,
-                         parent=parent, description=description,
-                         read_only=read_only)
         if not isinstance(default_value, Quantity):
             raise TypeError(f"default value {default_value} is not a Quantity")
         if not isinstance(min_si, (int, float)):
@@ -1324,6 +1325,10 @@ class InputParameterQuantity(InputParameter):
         self._max_si: float = max_si
         self._format: str = format_str
         self._type: Type[Quantity] = type(default_value)
+        # register with the parent only after the checks above have passed
+        super().__init__(key, name, default_value, display_priority,
+                         parent=parent, description=description,
+                         read_only=read_only)
 
     @property    
     def value(self) -> Quantity:
@@ -1506,9 +1511,6 @@ class InputParameterSelectionList(InputParameter):
         ValueError
             when default_value is not one of the options in the list
         """
-        super().__init__(key, name, default_value, display_priority,
-                         parent=parent, description=description,
-                         read_only=read_only)
         if not isinstance(options, list):
             raise TypeError(f"options {options} is not a list")
         if not all([isinstance(x, str) for x in options]):
@@ -1519,6 +1521,10 @@ class InputParameterSelectionList(InputParameter):
             raise ValueError(f"default value {default_value} not in options " \
                              +f"list {options}")
         self._options = options
+        # register with the parent only after the checks above have passed
+        super().__init__(key, name, default_value, display_priority,
+                         parent=parent, description=description,
+                         read_only=read_only)
 
     @property    
     def value(self) -> str:
